@@ -56,7 +56,11 @@ class Gen:
             elif k < 0.86 and allow_link:
                 out.append(("ext", "http://ex%d.org/p" % r.randint(1, 9), self.words(1, 2)))
             elif k < 0.93 and allow_ref:
-                out.append(("ref", self.inlines(depth - 1, False, allow_link, banned)))
+                if allow_link and r.random() < 0.3:      # a footnote that is nothing but a link (several of them look alike)
+                    self.n += 1
+                    out.append(("ref", [("link", "Tq%dz" % self.n, None)]))
+                else:
+                    out.append(("ref", self.inlines(depth - 1, False, allow_link, banned)))
             else:
                 out += self.words(1, 1)
         return out
@@ -148,7 +152,10 @@ class Gen:
         blocks = [("para", self.inlines(2))] + [self.block(depth) for _ in range(r.randint(0, 2))]
         subs = []
         if depth > 0 and level < 4:
-            subs = [self.section(level + 1, depth - 1) for _ in range(r.randint(0, 2))]
+            # sub-sections are usually one level deeper, sometimes two (a skipped level), in any order
+            # (all sub-sections of one section on the same level: a deeper later one would belong to the earlier one)
+            sub_level = min(level + r.choice([1, 1, 1, 2]), 6)
+            subs = [self.section(sub_level, depth - 1) for _ in range(r.randint(0, 2))]
         return ("section", level, self.words(1, 2), blocks, subs)
 
     def doc(self):
@@ -301,7 +308,8 @@ class Render:
         out = [eq + self.ch(" ", "") + self.inl(title) + self.ch(" ", "") + eq, ""]
         for bi, b in enumerate(blocks):
             nxt = blocks[bi + 1] if bi + 1 < len(blocks) else None
-            tight = b[0] in ("list", "dl") and nxt is not None and nxt[0] == "para" and self.ch(True, False, False)
+            tight = b[0] in ("list", "dl") and nxt is not None and self.ch(True, False, False) and (
+                nxt[0] == "para" or (nxt[0] == "list" and b[0] == "list" and nxt[1] != b[1]))      # '* a' directly followed by '# b'
             out += self.block(b) + ([] if tight else [""] * self.ch(1, 1, 2))
         for sub in subs:
             out += self.section(sub)
